@@ -318,6 +318,17 @@ def run(ctx):
                 h_some = any(s_["k"] == "assign" and s_["rv"]["k"] == "agg" and s_["rv"].get("variant") == "Some" for i_ in hb.live_blocks() for s_ in hb.stmts(i_))
                 if h_sum and h_uod and h_some:
                     delegating = True
+        # ... on every path: adding a span is also what turns an empty total into Some(..), so there is no path (a `zero span` shortcut,
+        # say) that returns without the store or the delegation
+        eff = [i for i in b.live_blocks() for s_ in b.stmts(i) if s_["k"] == "assign" and s_["rv"]["k"] == "agg" and s_["rv"].get("variant") == "Some"]
+        eff += [c.bb for c in b.calls() if c.name in ("add_assign", "replace", "insert", "get_or_insert_with") or
+                any(hb.crate == MQ and hb.kind != "Closure" and hb.def_ != b.def_ and any(
+                    s_["k"] == "assign" and s_["rv"]["k"] == "agg" and s_["rv"].get("variant") == "Some" for i_ in hb.live_blocks() for s_ in hb.stmts(i_))
+                    for hb in local_callee_bodies(F, c))]
+        ctx.check(bool(eff) and b.must_pass(eff), "R18.1", fnkey(b) + "#adds-on-every-path", loc(b),
+                  "add_assign can return without storing Some(previous + span) (an early return): a completed span - even an empty one - would not turn an "
+                  "empty total into Some(..), so the stopwatch closes as absent although a span was kept",
+                  "every path stores Some(..) or delegates")
         sums[b.path] = (has_sum, uod, somes, delegating)
         ctx.check((has_sum and uod and somes) or delegating, "R18.1", fnkey(b) + "#some(prev-or-zero+d)", loc(b), "add_assign is not Some(prev.unwrap_or_default() + d): %s" % sorted(names))
     # ------------------------------------------------------------------ R18.2 sibling agreement
